@@ -140,12 +140,27 @@ def digitsVal : Bool → Nat → Str → Option Nat
     else none
 
 /-- `int(s)` for an ASCII `s`; `none` = ValueError -/
-def pyInt (s : Str) : Option Int :=
+def pyIntAscii (s : Str) : Option Int :=
   let t := rstripP isIntBlank (lstripP isIntBlank s)
   match t with
   | '-' :: ds => (digitsVal false 0 ds).map fun n => - (Int.ofNat n)
   | '+' :: ds => (digitsVal false 0 ds).map Int.ofNat
   | ds => (digitsVal false 0 ds).map Int.ofNat
+
+/-- `_PyUnicode_TransformDecimalAndSpaceToASCII` on one character: ASCII stays, a Unicode blank
+becomes a space, a Unicode decimal digit its ASCII digit (table extracted from the interpreter),
+anything else `?` -/
+def toAsciiDigit (c : Char) : Char :=
+  let n := c.toNat
+  if n < 127 then c
+  else if isSpace c then ' '
+  else match Gen.Registry.decimalZeros.find? (fun z => z ≤ n && n < z + 10) with
+    | some z => Char.ofNat (48 + (n - z))
+    | none => '?'
+
+/-- `int(s)`; `none` = ValueError -/
+def pyInt (s : Str) : Option Int :=
+  if s.all (fun c => c.toNat < 128) then pyIntAscii s else pyIntAscii (s.map toAsciiDigit)
 
 inductive IntClass where
   | any | nonNeg | pos
@@ -157,9 +172,9 @@ def IntClass.setValue : IntClass → Int → SetRes Int
   | .nonNeg, v => if v < 0 then .error else .ok v
   | .pos, v => if v = 0 then .error else if v < 0 then .error else .ok v
 
-/-- texts outside the modelled fragment of `int()`: non-ASCII (Unicode digits and blanks) and
-more digits than `sys.get_int_max_str_digits()` tolerates -/
-def intUnmodelled (s : Str) : Bool := s.any (fun c => 128 ≤ c.toNat) || 4000 < s.length
+/-- texts outside the modelled fragment of `int()`: more digits than
+`sys.get_int_max_str_digits()` tolerates -/
+def intUnmodelled (s : Str) : Bool := 4000 < s.length
 
 def IntClass.set (k : IntClass) (s : Str) : SetRes Int :=
   if intUnmodelled s then .unm else
